@@ -163,9 +163,11 @@ Definition allocation (p : obs) (infl d : Z) : Z :=
 Definition excess (p q : obs) (infl : Z) : Z :=
   fold_left Z.max (map (fun d => val_credit p q d + del_credit p q d - allocation p infl d) ds) 0.
 
+Definition excess_dist (p q : obs) (infl : Z) : Z :=
+  fold_left Z.max (map (fun d => val_credit p q d + del_credit p q d - (distributable p d + (if d =? 0 then infl else 0))) ds) 0.
+
 Definition alloc_clauses (p q : obs) (infl : Z) : list string :=
-  (if forallb (fun d => val_credit p q d + del_credit p q d <=? distributable p d + (if d =? 0 then infl else 0)) ds
-   then [] else ["credited_le_distributable"%string]) ++
+  (if excess_dist p q infl <=? 0 then [] else [("credited_le_distributable+" ++ z_to_string (excess_dist p q infl))%string]) ++
   (if excess p q infl <=? 0 then [] else [("credited_le_allocation+" ++ z_to_string (excess p q infl))%string]) ++
   (if forallb (fun d => (g (o_treas q) d =? g (o_fee q) d)
                         && (g (o_fee q) d =? g (o_fee p) d + (if d =? 0 then infl else 0) - val_credit p q d
